@@ -688,6 +688,9 @@ fn generate(cli: &Cli) -> Vec<Vec<Case>> {
                 }
             }
         }
+        // many idle connections at once: no fixed pool of permits may run dry
+        cases.push(make_case(&mut rng, false, false, 300, Point::NothingSent, false, 1_500));
+        cases.push(make_case(&mut rng, true, true, 300, Point::StatusAfterHandshake, false, 1_500));
         return vec![cases];
     }
     // thorough: every strict prefix of both header versions with one staller …
@@ -719,6 +722,8 @@ fn generate(cli: &Cli) -> Vec<Vec<Case>> {
             }
         }
     }
+    cases.push(make_case(&mut rng, false, false, 600, Point::NothingSent, true, 3_000));
+    cases.push(make_case(&mut rng, true, true, 600, Point::AfterLoginStart, true, 3_000));
     rng.shuffle(&mut cases);
     // the long keep-alive cases go into the first wave together
     cases.sort_by_key(|c| c.hold_ms != 19_500);
@@ -821,6 +826,74 @@ async fn run(cli: &Cli, report: &mut Report) {
     report.set("worst_scheduler_lateness_ms", json!(late.worst().as_millis() as u64));
 }
 
+/// A client address that is over its rate limit keeps hammering the listener: refusing it must be
+/// cheap. Probes from other addresses are measured meanwhile.
+async fn limited_flood_family(cli: &Cli, report: &mut Report, late: &LateLog) {
+    let rounds = cli.scaled(if cli.tier == Tier::Thorough { 4 } else { 1 });
+    for round in 0..rounds {
+        let direct = {
+            let _g = START.lock().await;
+            start_direct(DirectSpec { timeout: SERVER_TIMEOUT, limiter: Some((Duration::from_secs(3600), 2)), proxy: Some((true, true)), ..Default::default() }).await
+        };
+        let addr = direct.addr;
+        let control = probe("control", addr, true, 9_000 + round, BOUND).await;
+        if !control.served_within_bound() {
+            report.inconclusive("rate-limited flood: the control probe was not served");
+            direct.stop.cancel();
+            continue;
+        }
+        let stop = Arc::new(AtomicBool::new(false));
+        let mut tasks = vec![];
+        for t in 0..12u64 {
+            let stop = stop.clone();
+            tasks.push(tokio::spawn(async move {
+                let src: SocketAddr = "203.0.113.66:4000".parse().expect("addr");
+                let mut refused = 0u64;
+                while !stop.load(Ordering::Relaxed) {
+                    if let Ok(end) = TcpEnd::connect(addr, None).await {
+                        end.send(&if t % 2 == 0 { tcp::proxy_v1(src, addr) } else { tcp::proxy_v2(src, addr) });
+                        let _ = end.wait_closed(Duration::from_millis(500)).await;
+                        if end.bytes_received() == 0 {
+                            refused += 1;
+                        }
+                        end.kill();
+                    }
+                    tokio::time::sleep(Duration::from_millis(2)).await;
+                }
+                refused
+            }));
+        }
+        let mut probes = vec![];
+        for (i, at_ms) in [1_000u64, 2_500, 4_000].into_iter().enumerate() {
+            tokio::time::sleep(Duration::from_millis(at_ms.saturating_sub(if i == 0 { 0 } else { [1_000u64, 2_500][i - 1] }))).await;
+            let t_a = Instant::now();
+            let p = probe("during-flood", addr, true, 9_100 + round * 10 + i as u64, BOUND + Duration::from_secs(10)).await;
+            probes.push((p, late.worst_between(t_a, Instant::now())));
+        }
+        stop.store(true, Ordering::Relaxed);
+        let mut refused = 0;
+        for t in tasks {
+            refused += t.await.unwrap_or(0);
+        }
+        direct.stop.cancel();
+        report.eval(Some(&format!("rate-limited-flood/{round}")));
+        report.count("rate-limited flood: connections refused without a byte", refused);
+        let lat: Vec<Option<f64>> = probes.iter().map(|(p, _)| p.latency().map(|d| d.as_secs_f64() * 1000.0)).collect();
+        let detail = json!({"round": round, "refused_connections": refused, "probe_latency_ms": lat});
+        report.sample(json!({"case": "rate-limited flood from one over-limit address, probes from other addresses", "observed": detail}));
+        for (p, worst) in &probes {
+            report.count("probes measured", 1);
+            if !p.served_within_bound() {
+                if *worst > BOUND / 2 {
+                    report.inconclusive(&format!("rate-limited flood: harness lateness {worst:?} during a probe, verdict void"));
+                } else {
+                    report.violation("probe-delayed/proxy-on/rate-limited-flood", &format!("a well-behaved client was not served within {BOUND:?} while another address kept being refused by the rate limiter"), detail.clone());
+                }
+            }
+        }
+    }
+}
+
 pub async fn run_prop(cli: &Cli) -> i32 {
     let mut report = Report::new(
         cli,
@@ -832,5 +905,9 @@ pub async fn run_prop(cli: &Cli) -> i32 {
     report.assume("scheduler lateness above 1.5 s (half the bound) during a probe voids that probe's verdict (inconclusive)");
     report.assume("the first Keep Alive is due 16 s after a connection was accepted; quick-tier keep-alive stallers are released before it, thorough-tier ones leave one unanswered");
     run(cli, &mut report).await;
+    if cli.replay.is_none() {
+        let late = LateLog::start(Duration::from_millis(20));
+        limited_flood_family(cli, &mut report, &late).await;
+    }
     report.finish()
 }
